@@ -4,7 +4,7 @@
 set -u
 cd "$(dirname "$0")/../.."
 R=${AITB_REPO:?}
-declare -A FILE SED
+declare -A FILE SED TEST
 FILE[ql_sign]=src/MDP/Algorithms/QLearning.cpp
 SED[ql_sign]='s|rew + discount_ \* q_.row(s1).maxCoeff()|rew - discount_ * q_.row(s1).maxCoeff()|'
 FILE[trace_decay_twice]=src/MDP/Algorithms/Utils/OffPolicyTemplate.cpp
@@ -33,6 +33,13 @@ FILE[dyna2_traces_not_shared]=include/AIToolbox/MDP/Algorithms/Dyna2.hpp
 SED[dyna2_traces_not_shared]='s|transientLearning_.setTraces(permanentLearning_.getTraces());|;|'
 FILE[dynaq_batch_wrong_pair]=include/AIToolbox/MDP/Algorithms/DynaQ.hpp
 SED[dynaq_batch_wrong_pair]='s|^            qLearning_.stepUpdateQ(s, a, s1, rew);|            qLearning_.stepUpdateQ(s1, a, s1, rew);|'
+FILE[dyna2_reset_reversed]=include/AIToolbox/MDP/Algorithms/Dyna2.hpp
+SED[dyna2_reset_reversed]='s|transientLearning_.setQFunction(permanentLearning_.getQFunction());|permanentLearning_.setQFunction(transientLearning_.getQFunction());|'
+FILE[dyna2_batch_on_permanent]=include/AIToolbox/MDP/Algorithms/Dyna2.hpp
+SED[dyna2_batch_on_permanent]='s|^            transientLearning_.stepUpdateQ(s, a, s1, a1, rew);|            permanentLearning_.stepUpdateQ(s, a, s1, a1, rew);|'
+FILE[ps_generic_discounts_reward]=include/AIToolbox/MDP/Algorithms/PrioritizedSweeping.hpp
+SED[ps_generic_discounts_reward]='s|probability \* ( model_.getExpectedReward(s,a,s1) + model_.getDiscount() \* values\[s1\] );|probability * model_.getDiscount() * ( model_.getExpectedReward(s,a,s1) + values[s1] );|'
+TEST[dyna2_reset_reversed]=Dyna2Tests; TEST[dyna2_batch_on_permanent]=Dyna2Tests; TEST[ps_generic_discounts_reward]=PrioritizedSweepingTests; TEST[dynaq_batch_wrong_pair]=DynaQTests
 names=("$@"); [ ${#names[@]} -eq 0 ] && names=(ql_sign trace_decay_twice ps_threshold swap_pop_skip eps_not_divided retrace_no_min esarsa_wrong_state dq_same_table hyst_swapped sarsal_trace_not_reset ps_abs_dropped ps_min_heap dyna2_traces_not_shared dynaq_batch_wrong_pair)
 for m in "${names[@]}"; do
   git -C "$R" checkout -- . 
@@ -48,5 +55,13 @@ if 'verdict' in e: print('   ', e['verdict'][:160])
 for b in e.get('broken',[])[:2]: print('   ', b['what'], b['name'][:60], (b.get('verdict') or '')[:120])
 PY
   done
+  t=${TEST[$m]:-}
+  if [ -n "$t" ]; then
+    LIB=$(ls -t ${AITB_CACHE:-.cache}/lib/*.a | head -1)
+    mkdir -p /var/tmp/c11tmp
+    if g++ -std=c++20 -O1 -fsanitize=address,undefined -w -I"$R/include" -I"$R/test" -I/usr/include/eigen3 "$R/test/MDP/$t.cpp" "$LIB" /usr/lib/liblpsolve55.a -lcolamd -ldl -lboost_unit_test_framework -o /var/tmp/c11tmp/$t-$m 2>/tmp/c11_ut_err.txt; then
+      echo "    repo unit test $t on the mutated library: $(ASAN_OPTIONS=detect_leaks=0 timeout 600 /var/tmp/c11tmp/$t-$m 2>&1 | grep -a -o "No errors detected\|[0-9]* failure[s]* [a-z ]*detected" | head -1)"
+    else echo "    repo unit test $t: did not build"; tail -3 /tmp/c11_ut_err.txt; fi
+  fi
   git -C "$R" checkout -- .
 done
